@@ -286,7 +286,7 @@ fn episode(ctx: &Ctx, case: u64, out: &mut Out, tsan: bool) -> EpisodeResult {
     let mixed = r.range(0, 3) as usize;
     let nkeys = r.range(2, 6) as usize;
     let mut conf = Conf::default();
-    conf.conc = *r.pick(&[1usize, 2, 4]);
+    conf.conc = *r.pick(&[0usize, 1, 2, 4]);
     conf.cache = *r.pick(&[0usize, 1, 256]);
     conf.max_file_size = *r.pick(&[0u64, 300, 4096, 20_000, 65_536, 65_536]);
     // merges select everything or whatever is fragmented
@@ -484,7 +484,7 @@ fn episode(ctx: &Ctx, case: u64, out: &mut Out, tsan: bool) -> EpisodeResult {
                 out.class(format!("{:016x}", linz::overlap_pattern(&ops)));
             }
             out.max("ops_in_one_history", ops.len() as u64);
-            if sample_hist.is_none() && pairs > 2 && ops.len() <= 14 {
+            if (sample_hist.is_none() && pairs > 2 && ops.len() <= 14) || (sample_hist.is_none() && out.samples.is_empty() && !ops.is_empty() && ops.len() <= 24) {
                 sample_hist = Some(json!({"case": case, "segment": seg, "key": show(&keys[ki]), "initial": init[ki], "history": ops.iter().map(linz::brief).collect::<Vec<_>>()}));
             }
             init[ki] = quiescent[ki];
